@@ -234,11 +234,10 @@ func (f *FnVC) lookupIdent(env *Env, name string) (TV, bool) {
 	if h, ty, ok := f.ghostHeap(name); ok {
 		tv := TV{T: env.st.get(h), Ty: ty, Sort: f.heapSort[h]}
 		if gv := f.g.specs.Ghosts[name]; strings.HasPrefix(gv.Type, "gmap[") {
-			_, v := f.gmapTypes(gv)
-			if f.ghostElem == nil {
-				f.ghostElem = map[string]types.Type{}
+			if f.ghostDesc == nil {
+				f.ghostDesc = map[string]string{}
 			}
-			f.ghostElem[tv.T] = v
+			f.ghostDesc[tv.T] = gv.Type + "\x00" + gv.Pkg
 		}
 		return tv, true
 	}
@@ -335,7 +334,8 @@ func (f *FnVC) trExpr(env *Env, e SExpr) TV {
 			if ty != nil {
 				so = f.sorts.sortOf(ty)
 			}
-			bn := "q_" + v.Name
+			f.fresh++
+			bn := fmt.Sprintf("q%d_%s", f.fresh, v.Name)
 			n.vars[v.Name] = TV{bn, ty, so}
 			binds = append(binds, "("+bn+" "+so+")")
 			guards = append(guards, f.typeInv(bn, ty)...)
@@ -548,8 +548,19 @@ func (f *FnVC) trIndex(env *Env, x SIndex) TV {
 	a := f.trExpr(env, x.X)
 	i := f.trExpr(env, x.I)
 	if a.Ty == nil {
-		if et, ok := f.ghostElem[a.T]; ok {
-			return f.tv(sSel(a.T, i.T), et)
+		if d, ok := f.ghostDesc[a.T]; ok {
+			parts := strings.SplitN(d, "\x00", 2)
+			_, vtxt := splitGmap(parts[0])
+			t := sSel(a.T, i.T)
+			if strings.HasPrefix(vtxt, "gmap[") {
+				f.ghostDesc[t] = vtxt + "\x00" + parts[1]
+				return TV{t, nil, f.gmapSort(vtxt, parts[1])}
+			}
+			vt := f.g.resolveType(vtxt, parts[1], f.pkgPath())
+			if vt == nil {
+				sfail("ghost map: cannot resolve value type %s", vtxt)
+			}
+			return f.tv(t, vt)
 		}
 		// spec-level sequence: (Array Int Int)
 		if strings.HasPrefix(a.Sort, "(Array") {
@@ -645,7 +656,7 @@ func (f *FnVC) trCall(env *Env, x SCall) TV {
 				return TV{fmt.Sprint(u.Len()), intTy, "Int"}
 			case *types.Map:
 				_, md := f.mapHeaps(u)
-				return TV{sIte("(= "+a.T+" 0)", "0", "(mapcard "+sSel(env.st.get(md), a.T)+")"), intTy, "Int"}
+				return TV{sIte("(= "+a.T+" 0)", "0", f.mapcard(sSel(env.st.get(md), a.T), md)), intTy, "Int"}
 			}
 		}
 		sfail("len of %s", a.Sort)
@@ -761,6 +772,9 @@ func (f *FnVC) trCall(env *Env, x SCall) TV {
 			sfail("hasKey on non-map")
 		}
 		_, md := f.mapHeaps(mt)
+		if env.inQuant == 0 {
+			f.fact(sImp(sSel(sSel(env.st.get(md), a.T), k.T), "(>= "+f.mapcard(sSel(env.st.get(md), a.T), md)+" 1)"))
+		}
 		return TV{sAnd("(not (= "+a.T+" 0))", sSel(sSel(env.st.get(md), a.T), k.T)), boolTy, "Bool"}
 	case "min", "max":
 		a, b := arg(0), arg(1)
@@ -774,8 +788,8 @@ func (f *FnVC) trCall(env *Env, x SCall) TV {
 		return TV{sIte("(>= "+a.T+" 0)", a.T, "(- "+a.T+")"), a.Ty, a.Sort}
 	}
 	for _, ct := range f.g.specs.Contracts {
-		if ct.Alias == id.Name && ct.Pure {
-			return f.trExternPure(env, ct.Key, x.Args)
+		if idx, ok := ct.Aliases[id.Name]; ok && ct.Pure {
+			return f.trExternPureIdx(env, ct.Key, x.Args, idx)
 		}
 	}
 	if sf, ok := f.g.specs.SpecFuns[id.Name]; ok {
@@ -853,9 +867,8 @@ func (f *FnVC) applySpecFun(env *Env, sf *SpecFun, args []TV) TV {
 		n := env.clone()
 		n.vars = map[string]TV{}
 		for k, v := range env.vars {
-			if strings.HasPrefix(k, "q_") {
-				n.vars[k] = v
-			}
+			_ = k
+			_ = v
 		}
 		n.lazy = nil
 		n.pkg = sf.Pkg
@@ -973,6 +986,10 @@ func (f *FnVC) specAxioms(sf *SpecFun) {
 // ---------- extern pure functions used in specs ----------
 
 func (f *FnVC) trExternPure(env *Env, name string, argsE []SExpr) TV {
+	return f.trExternPureIdx(env, name, argsE, 0)
+}
+
+func (f *FnVC) trExternPureIdx(env *Env, name string, argsE []SExpr, idx int) TV {
 	ct := f.g.findExtern(name)
 	if ct == nil || !ct.Pure {
 		sfail("%s is not a pure extern function (declare it in externs/*.spec with 'pure')", name)
@@ -982,13 +999,15 @@ func (f *FnVC) trExternPure(env *Env, name string, argsE []SExpr) TV {
 		args = append(args, f.trExpr(env, a))
 	}
 	res := f.pureApp(ct, args, nil)
-	if len(res) == 0 {
-		sfail("%s has no result", name)
+	if len(res) <= idx {
+		sfail("%s has no result %d", name, idx)
 	}
 	if env.inQuant == 0 {
 		f.assumeExternEnsures(ct, args, res, env.st)
+	} else {
+		f.pureAxioms(ct, args, env.st)
 	}
-	return res[0]
+	return res[idx]
 }
 
 func (f *FnVC) pureApp(ct *Contract, args []TV, sig *types.Signature) []TV {
@@ -1100,4 +1119,90 @@ func (f *FnVC) litElems(a, b string) string {
 		cs = append(cs, sEq(sSel(arr, sAdd(off, fmt.Sprint(i))), fmt.Sprint(lit[i])))
 	}
 	return sAnd(cs...)
+}
+
+// splitGmap splits "gmap[K]V" into K and V.
+func splitGmap(t string) (k, v string) {
+	t = t[len("gmap["):]
+	depth := 1
+	for i, c := range t {
+		if c == '[' {
+			depth++
+		} else if c == ']' {
+			depth--
+			if depth == 0 {
+				return t[:i], t[i+1:]
+			}
+		}
+	}
+	return t, ""
+}
+
+func (f *FnVC) gmapSort(t, pkg string) string {
+	if !strings.HasPrefix(t, "gmap[") {
+		ty := f.g.resolveType(t, pkg, f.pkgPath())
+		if ty == nil {
+			sfail("ghost map: cannot resolve type %s", t)
+		}
+		return f.sorts.sortOf(ty)
+	}
+	k, v := splitGmap(t)
+	return "(Array " + f.gmapSort(k, pkg) + " " + f.gmapSort(v, pkg) + ")"
+}
+
+// pureAxioms: when a pure extern is applied under a quantifier its ensures cannot be instantiated on the
+// ground arguments; state them once as universally quantified axioms triggered by the application.
+func (f *FnVC) pureAxioms(ct *Contract, args []TV, st *State) {
+	var sorts []string
+	for _, a := range args {
+		sorts = append(sorts, a.Sort)
+	}
+	key := "pureax:" + ct.Key + ":" + strings.Join(sorts, ",") + ":" + fmt.Sprint(st == f.root)
+	if f.declSet[key] || len(ct.Ensures) == 0 {
+		return
+	}
+	f.declSet[key] = true
+	var binds []string
+	var qargs []TV
+	var guards []string
+	for i, a := range args {
+		n := fmt.Sprintf("x%d", i)
+		binds = append(binds, "("+n+" "+a.Sort+")")
+		ty := a.Ty
+		if i < len(ct.Params) {
+			if p := f.externParamTV(ct, i); p.Ty != nil {
+				ty = p.Ty
+			}
+		}
+		qargs = append(qargs, TV{n, ty, a.Sort})
+		if a.Sort != "Int" {
+			guards = append(guards, f.typeInv(n, ty)...)
+		}
+	}
+	res := f.pureApp(ct, qargs, nil)
+	env := &Env{f: f, vars: map[string]TV{}, st: st, old: st, pkg: f.pkgPath(), inQuant: 1}
+	for i, a := range qargs {
+		if i < len(ct.Params) && ct.Params[i].Name != "" {
+			env.vars[ct.Params[i].Name] = a
+		}
+	}
+	for i, r := range res {
+		if i < len(ct.Results) && ct.Results[i].Name != "" {
+			env.vars[ct.Results[i].Name] = r
+		}
+	}
+	if len(res) == 1 {
+		env.vars["result"] = res[0]
+	}
+	var pats []string
+	for _, r := range res {
+		pats = append(pats, r.T)
+	}
+	for _, e := range ct.Ensures {
+		body := f.trBool(env, e.E)
+		for _, r := range res {
+			body = sAnd(append(f.typeInv(r.T, r.Ty), body)...)
+		}
+		f.qfacts = append(f.qfacts, "(forall ("+strings.Join(binds, " ")+") (! "+sImp(sAnd(guards...), body)+" :pattern ("+pats[0]+")))")
+	}
 }
